@@ -30,4 +30,16 @@ def correspondence(ctx):
 def oracle(ctx, budget=1, replay=None, hints=None):
     kw, styles = _kw()
     acc = (lambda p: p['style'] in styles) if styles else None
-    return FL.oracle(ctx, PID, [O.check_C03], kw, 150 * budget, accept=acc, replay=replay)
+    r = FL.oracle(ctx, PID, [O.check_C03], kw, 150 * budget, accept=acc, replay=replay)
+    # through the plugin object, as OctoPrint drives it (exclusion switched off and on by the file, regions edited under the tool, unit and mode
+    # switches inside the episode): two reference printers, one fed the file, one fed what the hooks let through
+    import pluginoracles as PO
+    nh = 60 * budget
+    for _ in range(nh):
+        f = PO.run_history(PS.hook_history(ctx.rng), ('C03',))
+        if f and len(r['failures']) < 10:
+            r['failures'].append(f[0])
+    r['evaluations'] += nh
+    r['distribution']['plugin_histories'] = nh
+    r['distribution']['plugin_resync_checks'] = PO.COUNTS.get('C03:resync', 0)
+    return r
